@@ -71,7 +71,7 @@ func NewController(addr api.WarehouseLocation) (warehouse.BlobstoreController, e
 }
 
 func (whCtrl Controller) OpenReader(wareID api.WareID) (io.ReadCloser, error) {
-	u := whCtrl.baseUrl
+	u := *whCtrl.baseUrl // (a copy: the controller's base URL stays what it is for the next request)
 	if whCtrl.ctntAddr {
 		// The hash becomes a path segment of the URL: "../" in it would address some other object of the server.
 		if strings.ContainsAny(wareID.Hash, "/\x00") || wareID.Hash == "." || wareID.Hash == ".." {
